@@ -496,6 +496,14 @@ def main(tier, seed):
             one = {k: [v[i]] for k, v in rows.items()}
             rep.violation(f"standin.{nm}.identities", {"native_result": bad[0][1], "input": one,
                                                        "script": REPLAY.format(name=nm, rows=json.dumps(one), skip="True")})
+    from checks.c06 import REPLAY_TM, native_trimesh
+
+    bad_tm = native_trimesh(seed)
+    rep.standin("TriangularMesh in multi-source calls: B, H, J, M of each mesh equal the mesh alone (J = polarization exactly inside ITS OWN body)",
+                "4 adversarial mesh families x all ordered pairs/triples x {6 observers, 1 observer}", 4 * 12 * 2 * 4, 4 * 12 * 2,
+                "concentric cubes, shared-facet tetrahedra, shared-base pyramids, mixed facet counts", [dict(family="concentric cubes", order=[0, 1])], failures=len(bad_tm), exhaustive=True)
+    if bad_tm and not rep.violations:
+        rep.violation("standin.trimesh-J-inside-own-body", {"native_result": bad_tm[0], "script": REPLAY_TM.format(seed=seed)})
     rep.standin("native B=mu0*H+J / J=mu0*M / J in {0,pol} on random and special rows (faces, edges, axis), all wrappers",
                 f"{nrows} rows per wrapper", total, total, "random rows incl. rows placed on faces/edges; known regions skipped",
                 samples, failures=nbad)
